@@ -3,7 +3,8 @@ package main
 // C18 -- the worker pool always returns and never loses workers.
 // Correspondence: (1) results of Parallelize/Search on the real pool vs the model's prediction for the same (w, c, nil-tape);
 // (2) the model's exhaustive exploration (pool.explore) must report no deadlocked / leaked / bad state for the modelled handshake;
-// Search: stress -- many consecutive calls with instant tasks, a watchdog for lost workers / deadlock, worker-availability probe.
+// Search: stress -- many consecutive calls with instant tasks, a watchdog for lost workers / deadlock, worker-availability probe;
+// default-sized pools (NewPool(0), NewPool(-1)) in re-executed children restricted to 1, 2, 4 CPUs (c18_default.go).
 
 import (
 	"fmt"
@@ -44,10 +45,15 @@ func runC18(c *ctx) {
 		"model: pool.run results for the same (w,c) and pool.explore over all interleavings for small (w,c); non-trivial = c>0"
 	// schedule-level lockstep of the real goroutines with the model (c18_lockstep.go; uses the yield hooks in pkg/pool)
 	if c.replay != "" {
+		if c.c18DefaultReplay() {
+			return
+		}
 		c.c18Lockstep()
 		return
 	}
 	defer c.c18Lockstep()
+	// default-sized pools in child processes that see 1, 2, 4 CPUs (c18_default.go)
+	defer c.c18Default()
 	calls := 20000
 	if c.thorough() {
 		calls = 60000
